@@ -357,6 +357,12 @@ func (h *Handshaker) ReplayBlocks(
 		}
 	}
 
+	// the height of the block that follows the state: the chain's first block is at
+	// the initial height, not at 1
+	nextHeight := stateBlockHeight + 1
+	if stateBlockHeight == 0 {
+		nextHeight = state.InitialHeight
+	}
 	// First handle edge cases and constraints on the storeBlockHeight and storeBlockBase.
 	switch {
 	case storeBlockHeight == 0:
@@ -379,9 +385,9 @@ func (h *Handshaker) ReplayBlocks(
 		// the state should never be ahead of the store (this is under tendermint's control)
 		panic(fmt.Sprintf("StateBlockHeight (%d) > StoreBlockHeight (%d)", stateBlockHeight, storeBlockHeight))
 
-	case storeBlockHeight > stateBlockHeight+1:
+	case storeBlockHeight > nextHeight:
 		// store should be at most one ahead of the state (this is under tendermint's control)
-		panic(fmt.Sprintf("StoreBlockHeight (%d) > StateBlockHeight + 1 (%d)", storeBlockHeight, stateBlockHeight+1))
+		panic(fmt.Sprintf("StoreBlockHeight (%d) > StateBlockHeight + 1 (%d)", storeBlockHeight, nextHeight))
 	}
 
 	var err error
@@ -400,7 +406,7 @@ func (h *Handshaker) ReplayBlocks(
 			return appHash, nil
 		}
 
-	} else if storeBlockHeight == stateBlockHeight+1 {
+	} else if storeBlockHeight == nextHeight {
 		// We saved the block in the store but haven't updated the state,
 		// so we'll need to replay a block using the WAL.
 		switch {
